@@ -362,6 +362,15 @@ def r4_scan_equals_load(ctx, res):
         res.find(key, lmf.loc(f.node), 'scan_lexicons returns attribute values as raw bytes decoded to text without expanding XML entity '
                                        'references (&amp; &quot; &#9; ...): ids, versions and labels differ from what load() reports, and '
                                        '_precheck looks up the wrong specifier')
+    # (b2) markup inside XML comments is not markup: the scan must skip comments
+    key = 'scan:comments-skipped'
+    consts = [c.value for c in ast.walk(f.node) if isinstance(c, ast.Constant) and isinstance(c.value, (bytes, str))]
+    has_comment_pat = any(('<!--' in (c if isinstance(c, str) else c.decode('latin1'))) for c in consts)
+    res.inst(key, lmf.loc(f.node), 'a pattern for <!-- ... --> is applied before the tags are matched')
+    if not has_comment_pat:
+        res.find(key, lmf.loc(f.node), 'scan_lexicons matches <Lexicon>/<Extends> tags inside XML comments: a commented-out '
+                                       '<!-- <Extends id=".." version=".."/> --> makes the scan report an extension base that load() does not '
+                                       'see, and add() skips the lexicon as "base lexicon not available"')
     # (c) same element kinds as the loader
     key = 'scan:element-kinds'
     names = set()
@@ -406,6 +415,6 @@ RULES = [
     ('C20-R1', r1_header, 6),
     ('C20-R2', r2_reader_rejects, 6),
     ('C20-R3', r3_required_attributes, 45),
-    ('C20-R4', r4_scan_equals_load, 6),
+    ('C20-R4', r4_scan_equals_load, 7),
     ('C20-R5', r5_parse_before_write, 5),
 ]
